@@ -299,16 +299,26 @@ inductive Ev
       `AccessoryDriver.unpair` → `State.remove_paired_client`, which clears every pairing with the last
       admin).  Pair-setup is open again; nothing else of the pair-setup state is touched. -/
   | unpair
+  /-- the owner changes the setup code at run time (`state.pincode = …`); an exchange in flight keeps the
+      verifier made from the old code, the next M1 uses the new one -/
+  | setCode (code : Bytes)
 
 def Ev.isBystander : Ev → Bool
   | .req _ => false
   | _ => true
+
+/-- events of the owner that do change what pair-setup sees: unpairing, changing the setup code -/
+def Ev.isOwner : Ev → Bool
+  | .unpair => true
+  | .setCode _ => true
+  | _ => false
 
 def stepEv (cfg : Cfg) (ps : PS) : Ev → PS × Option Out
   | .req r => ((step cfg ps r).1, some (step cfg ps r).2.1)
   | .connLost => (ps, none)
   | .other => (ps, none)
   | .unpair => ({ ps with paired := [] }, none)
+  | .setCode c => ({ ps with pincode := c }, none)
 
 /-- run a history of events; the answers to the pair-setup requests are collected -/
 def runEv (cfg : Cfg) : PS → List Ev → PS × List Out
